@@ -202,7 +202,7 @@ func verifC42Gen1(r *verifutil.Rand, i int, thorough bool) string {
 }
 
 func verifC42Gen(r *verifutil.Rand, i int, thorough bool) []string {
-	return []string{"reset", verifC42Gen1(r, i, thorough)}
+	return []string{verifC42Gen1(r, i, thorough)} // props/C42.json says "stateless"
 }
 
 func TestVerifC42(t *testing.T) {
